@@ -6,13 +6,16 @@
      x/vauth/types/proof_external_owned_account.go ValidateBasic (lower-case rule, reached
        only from SaveProofExternalOwnedAccount, whose error makes the message server PANIC) -> SPanicSave
      x/vauth/keeper/constants.go CostSubmitProofExternalOwnedAccount = 1e18                -> COST
-     baseapp.runTx around it: message ValidateBasic before the ante handler, fee deduction by the ante
-       handler (kept when the message fails), message writes dropped on error or panic     -> submit_tx
-     app/antedl/cosmoslane/993c + 992c through Model/Lane.v                                -> vesting_tx
+     baseapp.runTx around it: ValidateBasic of TOP-LEVEL messages before the ante handler, fee deduction by the
+       ante handler (kept when a message fails), message writes dropped on error or panic; a submission nested in
+       authz MsgExec (992c depth cap; validated only by the authz keeper / the message server, i.e. AFTER the fee
+       was taken; the fee payer is the MsgExec's grantee, the fixed cost is the submitter's)  -> submit_tx
+     app/antedl/cosmoslane/993c + 992c through Model/Lane.v, and the SDK vesting handlers' rule that
+       the target account must not exist yet                                              -> vesting_tx
      ICA host packets (no ante handler), Model/Lane.v executed_ica                         -> ica_packet
 
-   Not logic, hence inputs: ecrecover/keccak ([verifies], a Section variable), bech32 validity of the strings,
-   hex decoding of the signature string, the SDK decorators' verdicts (Lane.env).  Executable Gallina only. *)
+   Not logic, hence inputs: ecrecover/keccak ([verifies], a Section variable), bech32 validity / length of the address
+   strings, hex decoding of the signature string, the SDK decorators' verdicts (Lane.env).  Executable Gallina only. *)
 From Evm Require Export Lane.
 Open Scope Z_scope.
 
@@ -33,47 +36,61 @@ Record vstate := {
   proofs : addr -> option sigstr;  (* vauth store: address -> proof; presence = proven EOA *)
   bal    : addr -> Z;              (* spendable balance in the EVM denomination *)
   supply : Z;                      (* bank supply of the EVM denomination *)
-  vested : addr -> bool            (* vesting account created at this address by a message of this history *)
+  vested : addr -> bool;           (* vesting account created at this address by a message of this history *)
+  acct   : addr -> bool            (* an auth account exists at this address *)
 }.
 
 Definition upd {A} (f : addr -> A) (a : addr) (v : A) : addr -> A := fun x => if N.eqb x a then v else f x.
 Definition has (st : vstate) (a : addr) : bool := match proofs st a with Some _ => true | None => false end.
 
+Definition with_bal (st : vstate) (b : addr -> Z) : vstate :=
+  {| proofs := proofs st; bal := b; supply := supply st; vested := vested st; acct := acct st |}.
+
 Inductive sres :=
 | SOk
-| SRejBasic      (* message ValidateBasic failed: rejected in front of the ante handler, nothing charged *)
-| SRejAnte       (* ante handler: the submitter cannot pay the transaction fee *)
-| SRejConflict   (* account already has a proof *)
-| SRejFunds      (* SendCoinsFromAccountToModule failed: balance below the fixed cost *)
-| SPanicSave.    (* SaveProofExternalOwnedAccount returned an error (signature string not lower case) -> panic(err) *)
+| SRejBasic        (* top-level message, ValidateBasic failed: rejected in front of the ante handler, nothing charged *)
+| SRejAnte         (* ante handler: the fee payer cannot pay the transaction fee; nothing charged *)
+| SRejDepth        (* ante handler 992c: nested deeper than maxNestedLevelsCount; nothing charged *)
+| SRejBasicNested  (* nested message, ValidateBasic failed inside the authz keeper: transaction fee charged *)
+| SRejConflict     (* account already has a proof *)
+| SRejFunds        (* SendCoinsFromAccountToModule failed: submitter's balance below the fixed cost *)
+| SPanicSave.      (* SaveProofExternalOwnedAccount returned an error (signature string not lower case) -> panic(err) *)
 
-Inductive vres := RSubmit (r : sres) | RVesting (accepted : bool) | RIca | ROtherOp.
+Inductive vtx := VOk | VAnteRej | VExecFail.
+
+Inductive vres := RSubmit (r : sres) | RVesting (r : vtx) | RIca | ROtherOp.
 
 Section Vauth.
   (* vauthutils.VerifySignature(address, bytes, MessageToSign) = (true, nil): ecrecover over keccak(message) gives the address *)
   Variable verifies : addr -> N -> bool.
 
+  (* acc_ok: the Account string is a valid bech32 account address of 20 bytes (the submitter string always is: it signs) *)
   Definition msg_valid (sub acc : addr) (acc_ok : bool) (g : sigstr) : bool :=
     acc_ok && negb (N.eqb sub acc) && s_prefix g && s_hex_ok g && verifies acc (s_bytes g).
 
-  (* the message server, after the transaction fee has been taken *)
+  (* the message server once ValidateBasic has passed and the transaction fee has been taken *)
   Definition submit_msg (st : vstate) (sub acc : addr) (g : sigstr) : vstate * sres :=
     if has st acc then (st, SRejConflict)
     else if bal st sub <? COST then (st, SRejFunds)
     else
       (* coins moved to the module account and burnt ... *)
-      let st1 := {| proofs := proofs st; bal := upd (bal st) sub (bal st sub - COST); supply := supply st - COST; vested := vested st |} in
+      let st1 := {| proofs := proofs st; bal := upd (bal st) sub (bal st sub - COST); supply := supply st - COST;
+                    vested := vested st; acct := acct st |} in
       (* ... then the proof is validated again and stored; a validation error panics and runTx drops st1 *)
       if negb (s_lower g) then (st, SPanicSave)
-      else ({| proofs := upd (proofs st1) acc (Some g); bal := bal st1; supply := supply st1; vested := vested st1 |}, SOk).
+      else ({| proofs := upd (proofs st1) acc (Some g); bal := bal st1; supply := supply st1; vested := vested st1;
+               acct := acct st1 |}, SOk).
 
-  (* the whole transaction [MsgSubmitProofExternalOwnedAccount] signed by the submitter, declared fee txfee *)
-  Definition submit_tx (st : vstate) (sub acc : addr) (acc_ok : bool) (g : sigstr) (txfee : Z) : vstate * sres :=
-    if negb (msg_valid sub acc acc_ok g) then (st, SRejBasic)
-    else if bal st sub <? txfee then (st, SRejAnte)
+  (* the whole transaction: [nest] MsgExec wrappers around one MsgSubmitProofExternalOwnedAccount; the transaction is
+     signed and its fee [txfee] paid by [payer] (nest = 0: payer = submitter; nest > 0: the grantee of the MsgExec) *)
+  Definition submit_tx (st : vstate) (nest : nat) (payer sub acc : addr) (acc_ok : bool) (g : sigstr) (txfee : Z) : vstate * sres :=
+    if (nest =? 0)%nat && negb (msg_valid sub acc acc_ok g) then (st, SRejBasic)
+    else if bal st payer <? txfee then (st, SRejAnte)
+    else if (MAX_NESTED_LEVELS <=? nest)%nat then (st, SRejDepth)
     else
-      let st0 := {| proofs := proofs st; bal := upd (bal st) sub (bal st sub - txfee); supply := supply st; vested := vested st |} in
-      submit_msg st0 sub acc g.
+      let st0 := with_bal st (upd (bal st) payer (bal st payer - txfee)) in
+      if negb (msg_valid sub acc acc_ok g) then (st0, SRejBasicNested)
+      else submit_msg st0 sub acc g.
 
   (* vesting targets among executed messages *)
   Fixpoint targets (l : list (route * msg)) : list addr :=
@@ -85,25 +102,37 @@ Section Vauth.
 
   Definition mark (v : addr -> bool) (l : list addr) : addr -> bool := fun x => v x || memN x l.
 
+  (* the SDK's vesting-creation handlers refuse a target whose account exists (also one created earlier in the same transaction) *)
+  Fixpoint fresh (ex : addr -> bool) (l : list addr) : bool :=
+    match l with
+    | [] => true
+    | a :: r => negb (ex a) && negb (memN a r) && fresh ex r
+    end.
+
   (* environment of the ante handler as seen from this state: the proof store is the real one, the SDK verdicts are inputs *)
   Definition env_at (st : vstate) (vb : option Z) (rest : mode -> option Z) : env :=
     {| has_proof := has st; sdk_vb := vb; sdk_rest := rest; payer_can_pay := true; granter_allows := false |}.
 
   (* a delivered user transaction carrying (possibly) vesting-creation messages *)
-  Definition vesting_tx (st : vstate) (vb : option Z) (rest : mode -> option Z) (sh : shape) : vstate * bool :=
+  Definition vesting_tx (st : vstate) (vb : option Z) (rest : mode -> option Z) (sh : shape) : vstate * vtx :=
     let e := env_at st vb rest in
-    if accepted default_disabled MDeliver e sh && run_msgs_ok sh
-    then ({| proofs := proofs st; bal := bal st; supply := supply st;
-             vested := mark (vested st) (targets (executed_tx default_disabled e sh)) |}, true)
-    else (st, false).
+    if negb (accepted default_disabled MDeliver e sh) then (st, VAnteRej)
+    else
+      let t := targets (executed_tx default_disabled e sh) in
+      if run_msgs_ok sh && fresh (acct st) t
+      then ({| proofs := proofs st; bal := bal st; supply := supply st;
+               vested := mark (vested st) t; acct := mark (acct st) t |}, VOk)
+      else (st, VExecFail).
 
   (* an ICA host packet: no ante handler *)
   Definition ica_packet (st : vstate) (p : ica_params) (signers_ok : bool) (l : list msg) : vstate :=
-    {| proofs := proofs st; bal := bal st; supply := supply st;
-       vested := mark (vested st) (targets (executed_ica p signers_ok l)) |}.
+    let t := targets (executed_ica p signers_ok l) in
+    if fresh (acct st) t
+    then {| proofs := proofs st; bal := bal st; supply := supply st; vested := mark (vested st) t; acct := mark (acct st) t |}
+    else st.
 
   Inductive vop :=
-  | OSubmit (sub acc : addr) (acc_ok : bool) (g : sigstr) (txfee : Z)
+  | OSubmit (nest : nat) (payer sub acc : addr) (acc_ok : bool) (g : sigstr) (txfee : Z)
   | OVestingTx (vb : option Z) (rest : mode -> option Z) (sh : shape)
   | OIcaPacket (p : ica_params) (signers_ok : bool) (l : list msg)
   | OBank (from to : addr) (amt : Z)     (* any other module moving coins between accounts *)
@@ -111,20 +140,36 @@ Section Vauth.
 
   Definition step (st : vstate) (o : vop) : vstate * vres :=
     match o with
-    | OSubmit sub acc ok g fee => let (s, r) := submit_tx st sub acc ok g fee in (s, RSubmit r)
+    | OSubmit n p sub acc ok g fee => let (s, r) := submit_tx st n p sub acc ok g fee in (s, RSubmit r)
     | OVestingTx vb rest sh => let (s, b) := vesting_tx st vb rest sh in (s, RVesting b)
     | OIcaPacket p ok l => (ica_packet st p ok l, RIca)
     | OBank f t amt =>
-        ({| proofs := proofs st; bal := upd (upd (bal st) f (bal st f - amt)) t (upd (bal st) f (bal st f - amt) t + amt);
-            supply := supply st; vested := vested st |}, ROtherOp)
+        (with_bal st (upd (upd (bal st) f (bal st f - amt)) t (upd (bal st) f (bal st f - amt) t + amt)), ROtherOp)
     | OMint a amt =>
-        ({| proofs := proofs st; bal := upd (bal st) a (bal st a + amt); supply := supply st + amt; vested := vested st |}, ROtherOp)
+        ({| proofs := proofs st; bal := upd (bal st) a (bal st a + amt); supply := supply st + amt; vested := vested st;
+            acct := acct st |}, ROtherOp)
     end.
 
   Fixpoint run (st : vstate) (l : list vop) : vstate :=
     match l with
     | [] => st
     | o :: r => run (fst (step st o)) r
+    end.
+
+  (* the same, keeping every operation's result *)
+  Fixpoint run_res (st : vstate) (l : list vop) : vstate * list vres :=
+    match l with
+    | [] => (st, [])
+    | o :: r => let (s1, x) := step st o in let (s2, xs) := run_res s1 r in (s2, x :: xs)
+    end.
+
+  (* what CheckTx answers for the transaction of an operation against state st (messages are not executed) *)
+  Definition check_ok (st : vstate) (o : vop) : bool :=
+    match o with
+    | OSubmit n p sub acc ok g fee =>
+        ((0 <? n)%nat || msg_valid sub acc ok g) && (fee <=? bal st p) && (n <? MAX_NESTED_LEVELS)%nat
+    | OVestingTx vb rest sh => accepted default_disabled MCheck (env_at st vb rest) sh
+    | _ => true
     end.
 
   Definition is_ica (o : vop) : bool := match o with OIcaPacket _ _ _ => true | _ => false end.
